@@ -400,7 +400,7 @@ def build_server(sess, name="m", late_reads_after_timers=False):
     rnd = (1, 0xABCDEF01, 0x5A)       # multi_session pins the library's random draws; lite: initial unreliable id 1
     log = sess.netlog
     dfr = _Deferred(spec.fragment_size)
-    wrote_at = {}
+    wrote_at, rbuf, stype = {}, {}, {}
 
     def emit(items):
         for tk0, line in items:
@@ -443,6 +443,12 @@ def build_server(sess, name="m", late_reads_after_timers=False):
             # written at this very instant (a stream without latency): the read is the consequence of something that happened at this
             # instant, the server's timers due now have fired before it. Written earlier (a stream that delivers later, by a timer of
             # the event loop): as for datagrams, the read is handled before the timers due at the same instant
+            # the stream type of each peer port, from the lite headers the server read (the handlers' log does not carry it)
+            buf = rbuf.get(remote, b"") + data
+            while len(buf) >= 12 and buf[0] == 0x80 and len(buf) >= 12 + buf[1] + (buf[2] | buf[3] << 8):
+                stype.setdefault((remote, buf[5]), buf[4] >> 4)
+                buf = buf[12 + buf[1] + (buf[2] | buf[3] << 8):]
+            rbuf[remote] = buf if buf[:1] == b"\x80" else b""
             b.advance(ss, "s", tk if (wrote_at.get(remote, tk) >= tk or late_reads_after_timers) else tk - 1)
             b.add("dgram %s %d %s %d %s %d %d %d" % (S, tk, remote[0], remote[1], hx(data), rnd[0], rnd[1], rnd[2]), ("op", "s", tk), ss)
         elif k == "sclose" and saddr in (e[2], e[3]):
@@ -454,7 +460,7 @@ def build_server(sess, name="m", late_reads_after_timers=False):
         elif k == "app" and e[2] == "s":
             _, t, side, op, key, data = e
             tk = ticks(t)
-            conn = "%s:%d:%d:%d" % (key[0][0], key[0][1], key[1], key[2])
+            conn = "%s:%d:%d:%d" % (key[0][0], key[0][1], key[1], stype.get((key[0], key[1]), key[2]))
             if op == "send":
                 dfr.push((key[0], key[1], 10), tk, "send %s %%d %s 0 %s" % (S, conn, hx(data)), len(data))
             elif op == "done":
